@@ -86,6 +86,7 @@ struct ARec {
 	bool        c_off;  // C obligations disabled (black hole used on it)
 	int         ndialers_ever;
 	int         owner;  // socket of the current/last listener
+	int         cur_listener; // LRec that is (or was last) listening here, -1 if none yet
 	bool        inet4;
 	uint16_t    port;
 };
@@ -613,6 +614,7 @@ new_addr(World *w, bool dead, int tr)
 	a.holed = a.c_off = false;
 	a.ndialers_ever = 0;
 	a.owner = -1;
+	a.cur_listener = -1;
 	a.inet4 = tr == TR_TCP || tr == TR_WS;
 	a.port  = (uint16_t) (tr == TR_TCP ? 5000 + n : tr == TR_WS ? 8000 + n : tr == TR_TCP6 ? 6000 + n : 0);
 	w->addrs.push_back(a);
@@ -730,6 +732,7 @@ do_listen(World *w, SRec *s, int addr)
 	l->open = true;
 	a.state = A_UP;
 	a.owner = s->idx;
+	a.cur_listener = l->idx;
 	evlog("listen s%d l%d %s", s->idx, l->idx, a.url.c_str());
 	addr_now_up(w, addr);
 	return l;
@@ -765,13 +768,23 @@ do_listener_close(World *w, LRec *l)
 {
 	ARec &a = w->addrs[(size_t) l->addr];
 	l->closing = true;
-	a.state    = A_PENDING;
-	addr_going_down(w, l->addr);
-	evlog("close listener l%d (%s)", l->idx, a.url.c_str());
+	// An asynchronous close may get to run only after the listener's socket
+	// has been closed (which closed the listener) and somebody else listens
+	// at the address again: the model of the address then belongs to the
+	// new listener and must not be touched.
+	bool mine = l->open && a.cur_listener == l->idx;
+	if (mine) {
+		a.state = A_PENDING;
+		addr_going_down(w, l->addr);
+	}
+	evlog("close listener l%d (%s)%s", l->idx, a.url.c_str(), mine ? "" : " (already gone)");
 	nng_listener_close(l->l);
+	if (mine && l->open && a.cur_listener == l->idx) {
+		l->open = false;
+		a.state = A_DOWN;
+		addr_now_down(w, l->addr);
+	}
 	l->open = false;
-	a.state = A_DOWN;
-	addr_now_down(w, l->addr);
 }
 
 static void
@@ -876,10 +889,14 @@ mark_sock_closing(World *w, SRec *s)
 			ob_void(w, d, "ABCD");
 		}
 	for (auto l : w->listeners)
-		if (l->sock == s->idx && l->open && !l->closing) {
+		if (l->sock == s->idx && l->open) {
+			// (also when an asynchronous close of the listener is
+			// already queued: that one may run only after this close)
 			l->closing = true;
-			w->addrs[(size_t) l->addr].state = A_PENDING;
-			addr_going_down(w, l->addr);
+			if (w->addrs[(size_t) l->addr].cur_listener == l->idx) {
+				w->addrs[(size_t) l->addr].state = A_PENDING;
+				addr_going_down(w, l->addr);
+			}
 		}
 }
 
@@ -899,8 +916,11 @@ do_sock_close(World *w, SRec *s)
 	for (auto l : w->listeners)
 		if (l->sock == s->idx && l->open) {
 			l->open = false;
-			w->addrs[(size_t) l->addr].state = A_DOWN;
-			addr_now_down(w, l->addr);
+			if (w->addrs[(size_t) l->addr].cur_listener == l->idx) {
+				addr_going_down(w, l->addr);
+				w->addrs[(size_t) l->addr].state = A_DOWN;
+				addr_now_down(w, l->addr);
+			}
 		}
 	// "every pipe that reached ADD_POST receives REM_POST no later than the
 	// return of its socket's close"
@@ -1566,7 +1586,14 @@ events_run(Params *p)
 			uint64_t tmo = d->rt_ns + 200 * MS;
 			if (tmo > 2 * SEC)
 				tmo = 2 * SEC;
-			int got = sim_wait_flag(&w->snipe_flag, tmo);
+			// in slices, so that an expensive background (ws handshakes
+			// byte by byte) cannot eat the whole step budget here
+			int      got = -1;
+			uint64_t end = sim_now_ns() + tmo;
+			while (got != 0 && sim_now_ns() < end && steps_left(w)) {
+				uint64_t left = end - sim_now_ns();
+				got = sim_wait_flag(&w->snipe_flag, left > 50 * MS ? 50 * MS : left);
+			}
 			w->snipe_addr = -1;
 			if (got != 0)
 				break;
